@@ -140,6 +140,13 @@ pub fn verif_dir() -> std::path::PathBuf {
         .unwrap_or_else(|_| std::path::PathBuf::from("/verif"))
 }
 
+/// where evidence and replay files go (default: the verif dir)
+pub fn out_dir() -> std::path::PathBuf {
+    std::env::var("VERIF_OUT_DIR")
+        .map(std::path::PathBuf::from)
+        .unwrap_or_else(|_| verif_dir())
+}
+
 pub fn load_known() -> Vec<KnownFinding> {
     let p = verif_dir().join("known_findings.json");
     match std::fs::read_to_string(&p) {
@@ -275,7 +282,7 @@ pub fn run_property(p: &dyn Prop, tier: Tier, seed: u64) -> RunResult {
 
     if let Some(idx) = *hang.lock().unwrap() {
         // a hang is a violation: the step did not return a value or an error
-        let dir = verif_dir().join("replays").join(id);
+        let dir = out_dir().join("replays").join(id);
         let _ = std::fs::create_dir_all(&dir);
         let path = dir.join(format!("hang_case_{idx}.json"));
         let _ = std::fs::write(
@@ -374,7 +381,7 @@ pub fn run_property(p: &dyn Prop, tier: Tier, seed: u64) -> RunResult {
             continue;
         }
         violations += 1;
-        let dir = verif_dir().join("replays").join(id);
+        let dir = out_dir().join("replays").join(id);
         let _ = std::fs::create_dir_all(&dir);
         let path = dir.join(format!("{}.json", sanitize(key)));
         let _ = std::fs::write(
@@ -461,7 +468,7 @@ pub fn run_property(p: &dyn Prop, tier: Tier, seed: u64) -> RunResult {
         "wall_s": wall,
         "violations": violations,
     });
-    let evdir = verif_dir().join("evidence");
+    let evdir = out_dir().join("evidence");
     let _ = std::fs::create_dir_all(&evdir);
     if let Err(e) = std::fs::write(
         evdir.join(format!("{id}.json")),
@@ -495,7 +502,7 @@ fn write_evidence_min(p: &dyn Prop, tier: Tier, seed: u64, t0: Instant, violatio
         "coverage": {"explanation": note, "evaluations": 1, "distinct_nontrivial": 0, "exhaustive": false},
         "wall_s": t0.elapsed().as_secs_f64(), "violations": violations,
     });
-    let evdir = verif_dir().join("evidence");
+    let evdir = out_dir().join("evidence");
     let _ = std::fs::create_dir_all(&evdir);
     let _ = std::fs::write(
         evdir.join(format!("{}.json", p.id())),
